@@ -111,6 +111,61 @@ def one_case(ctx, rng, i):
     return meta, out, p0
 
 
+def entry_points(ctx):
+    """the factor asked for on a curve that was fitted before with another factor, through every documented route:
+    fit_model(gcf_k=k), the setting edited and fit_model(), the fitter class with the keyword, the fitter class after
+    the setting was edited - each must give the modulus of the k = 1 fit times k^-p and the same contact point"""
+    from nanite.fit import IndentationFitter
+    rng = ctx.rng
+    for i in range(6 if ctx.tier == "quick" else 60):
+        mk = list(POWER)[i % 3]
+        truth = fitlib.truth_params(mk, rng, cp=rng.choice([0.0, -4e-7, 1.1e-7]))
+        idnt0 = fitlib.synth_curve(mk, truth, rng, n_app=200, n_ret=100, noise=0.0, seed=900 + i)
+        p0 = fitlib.start_params(mk, truth, rng, rel=0.05)
+        k0 = rng.choice([1.0, 1.0, 0.8])
+        k = rng.choice([0.5, 0.25, 2.0, 1.5, 0.6135])
+        base = dict(model_key=mk, segment=0, weight_cp=0, range_type="absolute", range_x=[0, 0])
+        ref = copy.deepcopy(idnt0)
+        fitlib.fit(ref, **copy.deepcopy(base), params_initial=copy.deepcopy(p0), gcf_k=1.0)
+        if not ref.fit_properties.get("success"):
+            continue
+        e1, cp1 = ref.fit_properties["params_fitted"]["E"].value, ref.fit_properties["params_fitted"]["contact_point"].value
+        for route in ("fit_model(gcf_k=k)", "fit_properties['gcf_k'] = k; fit_model()",
+                      "IndentationFitter(idnt, gcf_k=k).fit()", "fit_properties['gcf_k'] = k; IndentationFitter(idnt).fit()"):
+            idnt = copy.deepcopy(idnt0)
+            fitlib.fit(idnt, **copy.deepcopy(base), params_initial=copy.deepcopy(p0), gcf_k=k0)
+            meta = {"oracle": "entry-points", "model": mk, "k_before": k0, "k": k, "route": route,
+                    "cp_true": truth["contact_point"].value}
+            ctx.case(meta, nontrivial=json.dumps(meta, sort_keys=True), bucket=["stream=entry-points", f"k={k}"])
+            with warnings.catch_warnings():
+                warnings.simplefilter("ignore")
+                try:
+                    if route.startswith("fit_properties"):
+                        idnt.fit_properties["gcf_k"] = k
+                    if "IndentationFitter" in route:
+                        ft = IndentationFitter(idnt, gcf_k=k) if "gcf_k=k" in route else IndentationFitter(idnt)
+                        ft.fit()
+                        pf = ft.fp.get("params_fitted")
+                    else:
+                        idnt.fit_model(**({"gcf_k": k} if "gcf_k=k" in route else {}))
+                        pf = idnt.fit_properties.get("params_fitted")
+                except BaseException as e:  # noqa
+                    ctx.violation(f"entry-point-raises:{type(e).__name__}", f"{route} raised {e!r}", {"input": meta})
+                    continue
+            if pf is None:
+                ctx.violation("entry-point-no-result", f"{route}: no fitted parameters although the k = 1 fit of the "
+                              "same curve succeeds", {"input": meta})
+                continue
+            bad = []
+            if abs(pf["E"].value * k ** POWER[mk] - e1) > 2e-3 * abs(e1):
+                bad.append(f"E_k k^p = {pf['E'].value * k ** POWER[mk]!r} vs E_1 = {e1!r}")
+            if abs(pf["contact_point"].value - cp1) > 5e-10:
+                bad.append(f"contact point {pf['contact_point'].value!r} vs {cp1!r}")
+            if bad:
+                ctx.violation("k-not-equivalent:entry-point", f"{route} on a curve fitted before with k={k0}: " +
+                              "; ".join(bad), {"input": meta, "observed": bad})
+
+
 def run(ctx):
     ctx.trusted = TRUST_COMMON + [
         "theorems: Props/C11 (abstract power law over an ordered field) + the scaling theorems about the "
@@ -250,6 +305,7 @@ def run(ctx):
         if bad:
             ctx.violation(f"k-not-equivalent:{meta['mode']}:{'plateau' if meta['plateau'] else meta['range_type']}",
                           f"fit with k={k} is not equivalent to k=1: " + "; ".join(bad), {**rep, "observed": bad})
+    entry_points(ctx)
 
 
 def replay(ctx, path):
